@@ -596,6 +596,13 @@ def _ext_eq(a: SFloat, b: SFloat):
     return z3.And(zbool(b_iff(a.inf, b.inf)), a.val == b.val)
 
 
+TOL = [0.0]  # relative tolerance of concrete float comparisons (replay mode only)
+
+
+def _tol(a, b):
+    return TOL[0] * (1.0 + max(abs(a), abs(b))) if TOL[0] else 0.0
+
+
 def f_lt(a, b):
     if _conc_num(a) and _conc_num(b):
         return float(a) < float(b)
@@ -605,7 +612,10 @@ def f_lt(a, b):
 
 def f_le(a, b):
     if _conc_num(a) and _conc_num(b):
-        return float(a) <= float(b)
+        a, b = float(a), float(b)
+        if TOL[0] and math.isfinite(a) and math.isfinite(b):
+            return a <= b + _tol(a, b)
+        return a <= b
     a, b = sfloat(a), sfloat(b)
     return b_and(b_not(a.nan), b_not(b.nan), b_or(_ext_lt(a, b), _ext_eq(a, b)))
 
@@ -624,6 +634,8 @@ def f_same(a, b):
         a, b = float(a), float(b)
         if math.isnan(a) or math.isnan(b):
             return math.isnan(a) and math.isnan(b)
+        if TOL[0] and math.isfinite(a) and math.isfinite(b):
+            return abs(a - b) <= _tol(a, b)
         return a == b
     a, b = sfloat(a), sfloat(b)
     return b_or(
